@@ -15,6 +15,7 @@
 package log
 
 import (
+	"errors"
 	"fmt"
 	"github.com/echovault/sugardb/internal"
 	"github.com/echovault/sugardb/internal/clock"
@@ -190,9 +191,23 @@ func (store *Store) Restore() error {
 
 	r := resp.NewReader(store.rw)
 	database := 0
+	// End offset of the last complete entry read from the file.
+	var offset int64
 
 	for {
 		value, n, err := r.ReadValue()
+		if errors.Is(err, io.ErrUnexpectedEOF) {
+			// The final entry is incomplete: the process died while it was being written.
+			// Drop it, otherwise every entry appended from now on is parsed as part of it.
+			log.Printf("restore aof: dropping incomplete entry at offset %d\n", offset)
+			if err = store.rw.Truncate(offset); err != nil {
+				return fmt.Errorf("restore aof: truncate incomplete entry: %v", err)
+			}
+			if _, err = store.rw.Seek(0, io.SeekEnd); err != nil {
+				return fmt.Errorf("restore aof: %v", err)
+			}
+			break
+		}
 		if err != nil && err != io.EOF {
 			return err
 		}
@@ -200,6 +215,7 @@ func (store *Store) Restore() error {
 			// Break out when there are no more bytes to read.
 			break
 		}
+		offset += int64(n)
 
 		command, err := value.MarshalRESP()
 		if err != nil {
